@@ -891,8 +891,8 @@ def check_termination(case):
 
 
 PARTS = [
-    Part("krylov", check_case, {"quick": 20000, "thorough": 40000}, strategy=st_case),
-    Part("breakdown", check_breakdown, {"quick": 4000, "thorough": 6000}, strategy=st_breakdown),
-    Part("narrow", check_narrow, {"quick": 3000, "thorough": 20000}, strategy=st_narrow),
-    Part("termination", check_termination, {"quick": 2000, "thorough": 20000}, strategy=st_termination),
+    Part("krylov", check_case, {"quick": 20000, "thorough": 160000}, strategy=st_case),
+    Part("breakdown", check_breakdown, {"quick": 4000, "thorough": 24000}, strategy=st_breakdown),
+    Part("narrow", check_narrow, {"quick": 3000, "thorough": 80000}, strategy=st_narrow),
+    Part("termination", check_termination, {"quick": 2000, "thorough": 80000}, strategy=st_termination),
 ]
